@@ -89,7 +89,7 @@ class SSeq:
         n = self._length
         if interp.ex.branch(z3.Or(it >= n, it < -n)):
             interp.raise_exc('IndexError', 'index out of range', node)
-        pos = z3.simplify(z3.If(it < 0, it + n, it))
+        pos = z3.simplify(it + n) if interp.ex.branch(it < 0) else z3.simplify(it)
         return self.elem(interp, pos)
 
     def slice(self, interp, lo, hi, node):
@@ -135,6 +135,9 @@ def comprehension_over_sseq(interp, node, env, seq):
     With conditions: a filter -- handled by the combinator layer."""
     from .interp import Env
     g = node.generators[0]
+    # the comprehension is materialised lazily (per element): freeze the local bindings now, as an
+    # eager python comprehension would have used them
+    env = Env(dict(env.vars), env.parent, env.module)
     if g.ifs:
         raise Unsupported('filter comprehension over symbolic-length sequence', node)
 
